@@ -12,3 +12,6 @@ def run(ctx, rep):
     more.rule_ld_pairing(mod, rep)
     more.rule_gemv_beta0(mod, rep)
     more.rule_trsv_loops(mod, rep)
+    from ..rules import more2
+    more2.rule_langs_norms(mod, rep)
+    more2.rule_gemv_total(mod, rep)
